@@ -9,17 +9,17 @@ TB = ("Trusted: go/types, x/tools v0.29.0 go/packages+go/cfg+go/ssa, the checker
       "third-party libraries and reflect behave as documented. Sites whose origin the analysis cannot resolve are 'assumed' and listed in the evidence. ")
 
 CLAIMS = {
- "C01": dict(rules=["C01.unknown-before-payload","C01.typed-shortcircuit","C01.never-null","C01.mirror","C01.range-corners"],
+ "C01": dict(rules=["C01.unknown-before-payload","C01.typed-shortcircuit","C01.never-null","C01.mirror","C01.range-corners","C03.operand-symmetry"],
    tech="typestate (relational guard worlds over go/cfg) + return-expression classification on the typed AST",
-   text="Decides structural necessary conditions only: in every operation method each payload assertion on an operand is dominated by a guard establishing it is known; mustTypeCheck short-circuits are forced to the documented result kind before every return; every return of the never-null family is non-null by construction or guarded. Level 'other': code-path quantification, not input sampling.",
+   text="Decides structural necessary conditions only: in every operation method each payload assertion on an operand is dominated by a guard establishing it is known; mustTypeCheck short-circuits are forced to the documented result kind before every return; every return of the never-null family is non-null by construction or guarded. Level 'other': code-path quantification, not input sampling. Arms of Equals whose conditions are operand-swapped images of each other have operand-swapped bodies.",
    note="Not decided: that definite answers derived from refinement ranges are justified, numeric soundness of range arithmetic, equality of known parts. "),
- "C02": dict(rules=["C01.typed-shortcircuit","C01.mirror","C02.index-agrees-with-hasindex","C02.map-lookup-presence"],
+ "C02": dict(rules=["C01.typed-shortcircuit","C01.mirror","C02.index-agrees-with-hasindex","C02.map-lookup-presence","C06.normalise-before-lookup","C16.narrowing-exact"],
    tech="typed-AST return-kind classification + sibling agreement (Index/HasIndex key validation; LessThan/GreaterThan mirror) + dominance of presence tests over payload-map lookups",
-   text="Decides: every return of each operation method has the documented result kind; Index and HasIndex reject the same key conditions per receiver kind and the list/tuple branches agree; LessThan and GreaterThan are exact mirror images; every payload-map lookup that produces a member is an iteration, keyed by the object type's attribute names, comma-ok, or dominated by a presence test (missing keys are rejected, never a null member).",
+   text="Decides: every return of each operation method has the documented result kind; Index and HasIndex reject the same key conditions per receiver kind and the list/tuple branches agree; LessThan and GreaterThan are exact mirror images; every payload-map lookup that produces a member is an iteration, keyed by the object type's attribute names, comma-ok, or dominated by a presence test (missing keys are rejected, never a null member). Attribute names are normalised before any map lookup; a narrowed big.Float is used (or turned back into a number) only under an exactness test.",
    note="Not decided: every numeric clause (agreement with exact rational arithmetic, precision selection, truth tables on runtime values). "),
- "C03": dict(rules=["C03.kind-total","C03.set-protocol","C20.set-storage","C02.map-lookup-presence","C20.order-free-results"],
+ "C03": dict(rules=["C03.kind-total","C03.set-protocol","C20.set-storage","C02.map-lookup-presence","C20.order-free-results","C03.operand-symmetry","C03.equivalence-uses-equals"],
    tech="kind-dispatch coverage of the equality / hashing / ordering entry points + who-may-write and must-pass-through rules in package set + go/ssa storage-independence of returned sets + presence-test dominance and map-range order classification in Equals",
-   text="Decides: Equals, RawEquals and the set hash cover every kind of type with a panicking residual and the set ordering covers the three primitive kinds; in package set only Add/Remove write buckets, buckets are chosen by rules.Hash and members compared with rules.Equivalent, Add appends only after the equivalence scan; every set-returning function returns fresh bucket storage; equality reads map members only under presence tests (differing key sets are noticed) and does not depend on map iteration order.",
+   text="Decides: Equals, RawEquals and the set hash cover every kind of type with a panicking residual and the set ordering covers the three primitive kinds; in package set only Add/Remove write buckets, buckets are chosen by rules.Hash and members compared with rules.Equivalent, Add appends only after the equivalence scan; every set-returning function returns fresh bucket storage; equality reads map members only under presence tests (differing key sets are noticed) and does not depend on map iteration order. Swapped-condition arms of Equals have swapped bodies (symmetry); set equivalence is decided by Equals, never RawEquals, and Remove deletes only after an equivalence comparison.",
    note="Not decided: reflexivity/symmetry/transitivity of number equality, hash/equality coherence for numbers, trichotomy (value-level). "),
  "C04": dict(rules=["C04.op-prologue","C04.convert-wrapper","C04.call-marks","C04.stdlib-mark-tolerance"],
    tech="AST shape rule on 21 operation methods (mark prologue) + typestate for payload access + must-pass-through of WithMarks in the convert wrapper and Function.Call",
@@ -29,21 +29,21 @@ CLAIMS = {
    tech="mirror (sibling) agreement of the lower/upper bound code + must-facts dominance of keep-tighter / known-value conditions over every store into the working refinement + must-pass-through of the consistency assertion + go/ssa alias check that builder and value never share a refinement record",
    text="Decides: every builder mutator first returns unchanged for a non-refineable (dynamic) value; every store of a bound or prefix is dominated by a condition consulting the existing bound of the same family and by one consulting the value being refined, and is followed by the consistency assertion on all paths; the number lower/upper bound setters and getters are exact mirror images; the safe prefix constructor and every truncation of a prefix go through SafeKnownPrefix; Refine() works on a copy and NewValue publishes a copy.",
    note="Not decided: that the reported range is exactly what the constraints imply for tie cases, that every contradiction with a known value is caught, Unicode continuation safety of SafeKnownPrefix itself (needs the UAX #15/#29 tables). "),
- "C06": dict(rules=["C06.single-mark-layer","C06.literal-payload-kind","C08.optional-taint","C08.partial-constructors","C20.set-storage"],
+ "C06": dict(rules=["C06.single-mark-layer","C06.literal-payload-kind","C08.optional-taint","C08.partial-constructors","C20.set-storage","C06.normalise-before-lookup"],
    tech="must-facts over go/cfg for the unwrap-before-wrap idiom of marker construction + static payload typing of every Value literal + optional-attribute taint to value constructors (shared with C08)",
-   text="Decides: wherever a marker is built its payload is another marker's realV or was tested not to be a marker (at most one layer of marks); every Value literal whose type names a kind carries the Go payload type of that kind; requested types reach null/unknown/empty-collection constructors in package convert only stripped of optional-attribute annotations; collection constructors in convert are guarded by emptiness and Can*Val tests.",
+   text="Decides: wherever a marker is built its payload is another marker's realV or was tested not to be a marker (at most one layer of marks); every Value literal whose type names a kind carries the Go payload type of that kind; requested types reach null/unknown/empty-collection constructors in package convert only stripped of optional-attribute annotations; collection constructors in convert are guarded by emptiness and Can*Val tests. String parameters are NFC-normalised before they index name-keyed maps.",
    note="Not decided: that dynamic payloads satisfy the invariants on every path (tuple length equals type length, object attribute sets), NFC normalisation of every string reaching a payload — only construction sites are checked. "),
- "C07": dict(rules=["C07.kind-total","C07.equals-field-coverage","C07.json-tags","C07.strip-rebuilds-everything","C07.conformance-structure","C07.conformance-ignores-optional","C20.no-alias-out"],
+ "C07": dict(rules=["C07.kind-total","C07.equals-field-coverage","C07.json-tags","C07.strip-rebuilds-everything","C07.conformance-structure","C07.conformance-ignores-optional","C20.no-alias-out","C07.json-names-encoded"],
    tech="kind-dispatch coverage + field-coverage of the eight typeImpl.Equals implementations + writer/reader tag-table agreement for type JSON",
-   text="Decides: each typeImpl.Equals asserts the other side to its own concrete type and compares every field from both sides; HasDynamicTypes / WithoutOptionalAttributesDeep / MarshalJSON cover all kinds with a panicking residual; testConformance recurses given-vs-want per compound kind and its residual appends an error; the type names written by MarshalJSON equal those accepted by UnmarshalJSON; stripping rebuilds every compound kind and never constructs optional attributes.",
+   text="Decides: each typeImpl.Equals asserts the other side to its own concrete type and compares every field from both sides; HasDynamicTypes / WithoutOptionalAttributesDeep / MarshalJSON cover all kinds with a panicking residual; testConformance recurses given-vs-want per compound kind and its residual appends an error; the type names written by MarshalJSON equal those accepted by UnmarshalJSON; stripping rebuilds every compound kind and never constructs optional attributes. MarshalJSON produces names through encoding/json only.",
    note="Not decided: the equivalence laws and the conformance characterisation over all type pairs as value facts. "),
  "C08": dict(rules=["C08.optional-taint","C08.partial-constructors","C08.safe-implies-unsafe","C08.safe-primitives-cannot-fail","C08.kind-total","C08.result-depends-on-target","C08.dynamic-replace-fallback","C19.kind-contradiction","C09.composition"],
    tech="information-flow (optional-attribute taint to value constructors) + dominance of partial constructors + monotone-flag shape rule for 'unsafe'",
    text="Decides: a requested type reaches NullVal/UnknownVal/empty-collection constructors only through WithoutOptionalAttributesDeep; every ListVal/SetVal/MapVal in package convert is dominated by an emptiness exit and a Can*Val exit; the unsafe flag only ever enables conversions and is passed unchanged to nested lookups; safe primitive conversions return a nil error on all paths; getConversionKnown considers every source and target kind.",
    note="Not decided: idempotence, information preservation, refinement admission, 'safe never fails for any value' beyond the primitive table (value-level). "),
- "C09": dict(rules=["C09.composition","C09.slot-assigned","C09.loopvar-capture","C09.unify-result-checked"],
+ "C09": dict(rules=["C09.composition","C09.slot-assigned","C09.loopvar-capture","C09.unify-result-checked","C20.no-param-write"],
    tech="liveness of conversion results on the success path over go/cfg + definite assignment of per-iteration result slots + escaping closures over loop variables + guard dominance over uses of unification results",
-   text="Decides: a conversion's result is used on the success path wherever conversions are composed (the second stage receives the first stage's output); inside unify's retry loop every inner iteration assigns its conversions slot on every path (nothing is left over from a rejected candidate); no stored or returned closure refers to a loop variable under the module's pre-1.22 loop semantics; conversions returned by a unification helper are indexed only after its type result was tested.",
+   text="Decides: a conversion's result is used on the success path wherever conversions are composed (the second stage receives the first stage's output); inside unify's retry loop every inner iteration assigns its conversions slot on every path (nothing is left over from a rejected candidate); no stored or returned closure refers to a loop variable under the module's pre-1.22 loop semantics; conversions returned by a unification helper are indexed only after its type result was tested. Exported unification/conversion entry points do not write into the slices they are given.",
    note="Not decided: that the returned conversions succeed on all values, that the chosen type is the most general, that safe mode never fails — value-level. "),
  "C10": dict(rules=["C10.loop-agreement","C10.arg-index","C10.impl-after-typecheck","C10.conformance-assert","C10.refine-applied"],
    tech="sibling agreement of the positional/variadic loops + dominance (must-pass-through) in Function.Call + who-may-call Spec.Impl/Spec.Type",
@@ -69,17 +69,17 @@ CLAIMS = {
    tech="constant-table check of per-width integer bounds through go/types constants + must-facts dominance of exactness and range tests over reflect setters",
    text="Decides: the bounds for 8/16/32/64-bit signed and unsigned targets are exactly the type's range with a panicking residual; SetInt/SetUint are dominated by big.Exact and by the comparisons with both bounds; SetFloat is protected by an infinity test conditioned on nothing but inexactness and by a float32 range test; unknown values are rejected before the kind dispatch.",
    note="Not decided: exact round trip for all Go values; freedom from reflect panics (no model of reflect); math/big's own Uint64 accuracy report for fractions (trusted as documented). "),
- "C17": dict(rules=["C17.error-checked","C17.result-depends-on-type","C17.length-taint","C17.partial-constructors","C17.object-completion"],
+ "C17": dict(rules=["C17.error-checked","C17.result-depends-on-type","C17.length-taint","C17.partial-constructors","C17.object-completion","C17.path-arithmetic"],
    tech="taint tracking of input-supplied lengths to allocation sizes over go/ssa (dominating bound checks as sanitisers) + forward may-analysis of unread errors over go/cfg + data/control dependence of successful returns on the requested type + guard dominance for panicking constructors",
-   text="Decides, for every function reachable from the five decoder entry points: no length read from the input sizes an allocation without a dominating bound; no error variable is overwritten or dropped unread; every successful return of a type-directed decoder depends on the requested type; ListVal/SetVal/MapVal are dominated by the Can*Val test, ObjectWithOptionalAttrs by a validation of the optional names, refinement-builder replays by a recovering defer; structural values are returned only after the member count was compared with the type (distinct members for by-name decoding) or completed from it.",
+   text="Decides, for every function reachable from the five decoder entry points: no length read from the input sizes an allocation without a dominating bound; no error variable is overwritten or dropped unread; every successful return of a type-directed decoder depends on the requested type; ListVal/SetVal/MapVal are dominated by the Can*Val test, ObjectWithOptionalAttrs by a validation of the optional names, refinement-builder replays by a recovering defer; structural values are returned only after the member count was compared with the type (distinct members for by-name decoding) or completed from it. Path trimming/indexing by len-1 happens only on a path that was extended by append on the way.",
    note="Not decided: panics needing value ranges inside the third-party JSON/msgpack tokenizers, stack depth on deeply nested input, the exact memory multiple. "),
  "C19": dict(rules=["C19.kind-total","C19.kind-contradiction","C19.rebuild-preserves-marks","C19.transformer-purity","C20.order-free-results"],
    tech="kind-dispatch coverage of walk/transform/iterators + belief-contradiction typestate on type kinds (relational worlds over go/cfg) + AST rule on every value handed to Transformer.Exit + go/ssa effect analysis of the transformers + map-range order classification",
    text="Decides: walk, transform, UnknownAsNull and the element iterators have a branch for each of the five compound kinds; path steps call kind-specific type accessors only for kinds their own guards admit; transform hands Exit either the original marked value or a rebuilt container re-marked with the peeled marks; the path-marks transformers never write the caller's slice and retain paths only as copies; no map range in the traversal code invokes callbacks or exits differently depending on iteration order.",
    note="Not decided: exactly-once visiting and that each reported path leads back to the visited member as value facts; path-set algebra beyond storage independence (C20.set-storage). "),
- "C20": dict(rules=["C20.no-payload-write","C20.no-global-write","C20.closure-state","C20.builder-copy","C20.set-storage","C20.no-alias-out","C20.no-retention-in","C20.order-free-results","C09.loopvar-capture"],
+ "C20": dict(rules=["C20.no-payload-write","C20.no-global-write","C20.closure-state","C20.builder-copy","C20.set-storage","C20.no-alias-out","C20.no-retention-in","C20.order-free-results","C09.loopvar-capture","C20.no-param-write"],
    tech="ownership / alias / effect analysis over go/ssa (origin tracing with field-sensitive callee summaries): who may write payload memory, what escapes through results, what is retained from parameters, which escaping closures write captured state",
-   text="Decides: no function writes memory reached through Value.v, marker.realV/marks, unknownType.refinement or a typeImpl record of anything it did not allocate; nothing writes package-level state after init; no escaping closure writes a captured variable; a refinement record is never shared between a value and the mutable builder; every function returning a set returns a fresh bucket map and buckets are not shared while Add appends in place; exported accessors returning Go references return copies; exported constructors do not retain caller-owned slices/maps/pointers (documented transfers tabled).",
+   text="Decides: no function writes memory reached through Value.v, marker.realV/marks, unknownType.refinement or a typeImpl record of anything it did not allocate; nothing writes package-level state after init; no escaping closure writes a captured variable; a refinement record is never shared between a value and the mutable builder; every function returning a set returns a fresh bucket map and buckets are not shared while Add appends in place; exported accessors returning Go references return copies; exported constructors do not retain caller-owned slices/maps/pointers (documented transfers tabled). Exported functions of cty, convert and function do not write into slice or map arguments.",
    note="Not decided: actual schedules and the race detector's view; purity of application-supplied capsule operations; aliases laundered through interface-typed fields beyond the summaries' depth (recorded as assumed). "),
 }
 
